@@ -108,6 +108,13 @@ func addMoreIntrinsics(m map[string]intrinsic) {
 		m[p+".Marshal"] = asn1Marshal
 		m[p+".MarshalWithParams"] = asn1Marshal
 	}
+	// (*rsa.PublicKey).Size: executed from its (one-line) source: (N.BitLen()+7)/8
+	m["(*crypto/rsa.PublicKey).Size"] = func(e *Exec, fn *ssa.Function, args []Value) Value {
+		if len(fn.Blocks) == 0 {
+			e.unsupported("no body: rsa.PublicKey.Size")
+		}
+		return e.runBody(fn, args)
+	}
 	// signature verification: an uninterpreted function of the algorithm, the signed bytes and the
 	// signature bytes (the hash and public-key code is not executed).  Flattening the arguments reads the
 	// signature bytes, which is what the C09 taint looks for.
